@@ -2,7 +2,7 @@
 import time
 from lib import vlib
 from lib.vlib import tlc, tlc_require_ok
-from checks.v2common import Acc, trace_leg, cfg_text, score_legs, runes_legs, tok_replay, diffrename_leg
+from checks.v2common import Acc, trace_leg, cfg_text, score_legs, runes_legs, tok_replay, diffrename_leg, pad_leg
 PID = "C02"
 def run():
     t0 = time.time(); v = vlib.Verdict(PID); acc = Acc()
@@ -11,6 +11,7 @@ def run():
     acc.add_tlc(r, "EditLemma.cfg")
     score_legs(v, acc, 4 if vlib.TIER == "thorough" else 3)
     tok_replay(v, acc, ["H"], 5 if vlib.TIER == "thorough" else 4)     # StartLine / EndLine are the tokenizer's lines: hyphen-ended lines, blank lines after them
+    pad_leg(v, acc)                                      # ... at every alignment with the tokenizer's read buffer (words broken over lines included)
     diffrename_leg(v, acc, 30)                           # the edit script is a function of which tokens are equal, not of their numbers
     runes_legs(v, acc)                                   # the id <-> rune channel to go-diff at every boundary of the encoding
     recs, lines = trace_leg(v, acc, "c02", [PID])
